@@ -12,8 +12,8 @@
    wf_text: the schemas the text syntax can express (declared names and references are identifier paths, quoted strings are valid UTF-8,
    applies-to lists non-empty - the complement is the known finding F45 -, no type position uses the name Set ...).
    norm_text: the parser does not classify type names, so every type name comes back as a reference (String -> the name "String"); it is the
-   resolver that classifies them, and it classifies them as before unless a declared type is named like a builtin (known finding F26,
-   C17_text_roundtrip_f26_refuted). *)
+   resolver that classifies them; a built-in name that the schema also declares as a type is written __cedar::Name so that it is classified
+   as before (F26, repaired). *)
 From Coq Require Import List Bool.
 Import ListNotations.
 From Cedar Require Import Base.Json Lang.Value Impl.PolicyJson Impl.SchemaResolve Impl.SchemaJson Impl.SchemaText Proofs.SchemaJsonProofs
@@ -55,14 +55,15 @@ Proof. exact second_text_rendering. Qed.
 Theorem C17_text_normal_form_stable : forall s, wf_text s = true -> norm_text (norm_text s) = norm_text s /\ wf_text (norm_text s) = true.
 Proof. exact norm_text_idempotent. Qed.
 
-(* the text round trip commutes with resolution (same verdict, same resolved schema) when no declared type is named like a builtin and
-   the schema uses no construct only JSON can express (an explicit EntityTypeRef, an unknown extension type) *)
-Theorem C17_text_roundtrip_preserves_resolution : forall s, wf_text s = true -> no_builtin_names s = true -> plain_schema s = true ->
+(* the text round trip commutes with resolution (same verdict, same resolved schema) for every schema that uses no construct only JSON can
+   express (an explicit EntityTypeRef, an unknown extension type) - also when a declared type is named like a built-in: the printer then
+   writes __cedar::String, which the resolver always reads as the built-in (this was the finding F26, repaired in the code) *)
+Theorem C17_text_roundtrip_preserves_resolution : forall s, wf_text s = true -> plain_schema s = true ->
   resolve_schema (erase (norm_text s)) = resolve_schema (erase s).
-Proof. exact resolve_norm_text_names. Qed.
+Proof. exact resolve_norm_text_names'. Qed.
 
-(* ... and does NOT when a declared entity type is named String: the known finding F26 *)
-Definition C17_text_roundtrip_f26_refuted := f26_capture.
+(* the former counterexample: entity String; entity A { x: String (the primitive) } now round-trips through resolution *)
+Definition C17_text_roundtrip_f26_example := f26_repaired.
 (* ... nor is an empty applies-to list printable: the known finding F45 *)
 Definition C17_text_roundtrip_f45_refuted := f45_rejected.
 
